@@ -826,8 +826,12 @@ func (e *endpoint) handleSegments() *tcpip.Error {
 		} else if s.flagIsSet(flagAck) {
 			// 处理正常的报文
 			// Patch the window size in the segment according to the
-			// send window scale.
-			s.window <<= e.snd.sndWndScale
+			// send window scale. The window field of a segment with
+			// SYN set (a retransmitted SYN-ACK) is never scaled
+			// (RFC 7323, section 2.2).
+			if !s.flagIsSet(flagSyn) {
+				s.window <<= e.snd.sndWndScale
+			}
 
 			// If the timestamp option is negotiated and the segment
 			// does not carry a timestamp option then the segment
